@@ -2,9 +2,10 @@
 # usage: mut.sh <file> <sed-expr> <prop>...   : apply sed to a scratch copy of the sources and run checks
 set -e
 D=$(mktemp -d /var/tmp/mut-XXXXXX)
-cp -r /repo/embedded-cli/src $D/src
-sed -i "$2" $D/src/$1
-if diff -q $D/src/$1 /repo/embedded-cli/src/$1 >/dev/null; then echo "sed made no change"; rm -rf $D; exit 3; fi
+mkdir -p $D/embedded-cli $D/embedded-cli-macros
+cp -r /repo/embedded-cli/src $D/embedded-cli/src; cp -r /repo/embedded-cli-macros/src $D/embedded-cli-macros/src
+sed -i "$2" $D/embedded-cli/src/$1
+if diff -q $D/embedded-cli/src/$1 /repo/embedded-cli/src/$1 >/dev/null; then echo "sed made no change"; rm -rf $D; exit 3; fi
 shift 2
-for p in "$@"; do VERIF_REPO_SRC=$D/src /verif/bin/check $p | tail -2; done
+for p in "$@"; do VERIF_REPO_SRC=$D/embedded-cli/src /verif/bin/check $p 2>/dev/null | tail -3; done
 rm -rf $D
